@@ -349,166 +349,213 @@ template <class E> VL defaultExt() {
   return d;
 }
 
-template <class E, class L> Result doMap(const Ctx& c) {
+// The templates below only call into the code under test and record plain data; judging and printing is done by
+// non-template functions (this keeps the amount of code generated per extents type x layout small).
+
+struct MapRaw {
+  MapObs o, def;
+  VL sext, stridesAcc, defGot;
+  long rank = 0, rdyn = 0;
+  bool flags = false, eqSame = false, copyEq = false, shorterEq = false, hasShorter = false, hasDefault = false;
+  std::vector<char> extEqPerturbed, mapEqPerturbed;  // per dimension: compared equal although the extent differs
+};
+
+template <class E, class L> MapRaw mapRaw(const Ctx& c) {
   using I = typename E::index_type;
   using M = typename L::template mapping<E>;
+  using E2 = S::dextents<OtherIndex<I>, E::rank()>;
   constexpr std::size_t R = E::rank();
+  MapRaw w;
   E e = makeExt<E>(c.x, c.ext);
   auto m = makeMap<L>(e, c.str, c.x[0] == 's');
-  MapObs o = observe(m);
-  VL sext;
-  long rdyn = 0;
-  for (std::size_t r = 0; r < E::rank(); ++r) {
-    sext.push_back(E::static_extent(r) == D ? -1 : long(E::static_extent(r)));
-  }
-  for (long p : c.patv) rdyn += p < 0;
-  Result res;
-  res.impl = "rank=" + std::to_string(E::rank()) + " rdyn=" + std::to_string(E::rank_dynamic()) + " sext=" + listStr(sext) + " " + blockStr(o);
-  if (E::rank() != c.patv.size() || long(E::rank_dynamic()) != rdyn || sext != c.patv) orFail(res, "extents", "static pattern misreported");
-  orFail(res, "mapping", checkMap(c.lay, c.ext, c.str, o));
-  if (m.is_unique() != true || m.is_strided() != true) orFail(res, "mapping", "is_unique/is_strided");
-  if constexpr (isStride<L>) {
-    VL sv;
-    for (auto x : m.strides()) sv.push_back(long(x));
-    if (sv != c.str) orFail(res, "mapping", "strides() differs from the strides given");
-    if (stridesSortedUnique(c.ext, c.str)) stat("stride_unique_by_criterion"); else stat("stride_outside_criterion");
-    if (o.rss > (long)o.offs.size()) stat("stride_padded");
-    if (o.exh) stat("stride_exhaustive");
-  }
+  w.o = observe(m);
+  for (std::size_t r = 0; r < R; ++r) w.sext.push_back(E::static_extent(r) == D ? -1 : long(E::static_extent(r)));
+  w.rank = long(E::rank());
+  w.rdyn = long(E::rank_dynamic());
+  w.flags = m.is_unique() && m.is_strided();
+  if constexpr (isStride<L>)
+    for (auto x : m.strides()) w.stridesAcc.push_back(long(x));
   // comparisons: equal to an equal object of another extents type, different from a perturbed one
-  {
-    using E2 = S::dextents<OtherIndex<I>, R>;
-    E2 same = E2(toArr<OtherIndex<I>, R>(c.ext));
-    if (!(e == same) || !(same == e) || (e != same)) orFail(res, "extents", "operator== false for equal extents of another type");
-    if (!(m == M(m))) orFail(res, "mapping", "operator== false for a copy");
-    for (std::size_t r = 0; r < R; ++r) {
-      VL pe = c.ext;
-      pe[r] += 1;
-      E2 other = E2(toArr<OtherIndex<I>, R>(pe));
-      if (e == other || other == e) orFail(res, "extents", "operator== true although extent " + std::to_string(r) + " differs");
-      if (E::static_extent(r) == D) {
-        E e3 = makeExt<E>("afull", pe);
-        if (makeMap<L>(e3, c.str) == m) orFail(res, "mapping", "operator== true although extent " + std::to_string(r) + " differs");
-      }
-    }
-    if constexpr (R > 0) {
-      S::dextents<OtherIndex<I>, R - 1> shorter{};
-      if (e == shorter) orFail(res, "extents", "operator== true for different ranks");
-    }
+  E2 same = E2(toArr<OtherIndex<I>, R>(c.ext));
+  w.eqSame = (e == same) && (same == e) && !(e != same);
+  w.copyEq = (m == M(m));
+  for (std::size_t r = 0; r < R; ++r) {
+    VL pe = c.ext;
+    pe[r] += 1;
+    E2 other = E2(toArr<OtherIndex<I>, R>(pe));
+    w.extEqPerturbed.push_back((e == other) || (other == e));
+    bool meq = false;
+    if (E::static_extent(r) == D) meq = (makeMap<L>(makeExt<E>("afull", pe), c.str) == m);
+    w.mapEqPerturbed.push_back(meq);
   }
-  // value-initialised objects: static extents as declared, dynamic extents 0; the default strided mapping is the
-  // row-major one
+  if constexpr (R > 0) {
+    S::dextents<OtherIndex<I>, R - 1> shorter{};
+    w.hasShorter = true;
+    w.shorterEq = (e == shorter);
+  }
+  // value-initialised objects
   if constexpr (!isStride<L> || strideFromAny<E>) {
     E e0{};
     M m0{};
-    VL d0 = defaultExt<E>();
-    MapObs o0 = observe(m0);
-    VL got;
-    for (std::size_t r = 0; r < R; ++r) got.push_back(long(e0.extent(r)));
-    if (got != d0) orFail(res, "extents", "value-initialised extents report " + listStr(got));
-    orFail(res, "default mapping", checkMap(c.lay, d0, canonStrides(RIGHT, d0), o0));
+    w.hasDefault = true;
+    w.def = observe(m0);
+    w.defGot = extOf(e0);
+  }
+  return w;
+}
+
+static Result mapJudge(const Ctx& c, const MapRaw& w, const VL& defaultExt) {
+  long rdyn = 0;
+  for (long p : c.patv) rdyn += p < 0;
+  Result res;
+  res.impl = "rank=" + std::to_string(w.rank) + " rdyn=" + std::to_string(w.rdyn) + " sext=" + listStr(w.sext) + " " + blockStr(w.o);
+  if (w.rank != (long)c.patv.size() || w.rdyn != rdyn || w.sext != c.patv) orFail(res, "extents", "static pattern misreported");
+  orFail(res, "mapping", checkMap(c.lay, c.ext, c.str, w.o));
+  if (!w.flags) orFail(res, "mapping", "is_unique/is_strided");
+  if (c.lay == STRIDE) {
+    if (w.stridesAcc != c.str) orFail(res, "mapping", "strides() differs from the strides given");
+    if (stridesSortedUnique(c.ext, c.str)) stat("stride_unique_by_criterion"); else stat("stride_outside_criterion");
+    if (w.o.rss > (long)w.o.offs.size()) stat("stride_padded");
+    if (w.o.exh) stat("stride_exhaustive");
+  }
+  if (!w.eqSame) orFail(res, "extents", "operator== false for equal extents of another type");
+  if (!w.copyEq) orFail(res, "mapping", "operator== false for a copy");
+  for (std::size_t r = 0; r < w.extEqPerturbed.size(); ++r) {
+    if (w.extEqPerturbed[r]) orFail(res, "extents", "operator== true although extent " + std::to_string(r) + " differs");
+    if (w.mapEqPerturbed[r]) orFail(res, "mapping", "operator== true although extent " + std::to_string(r) + " differs");
+  }
+  if (w.hasShorter && w.shorterEq) orFail(res, "extents", "operator== true for different ranks");
+  // value-initialised objects: static extents as declared, dynamic extents 0; the default strided mapping is the row-major one
+  if (w.hasDefault) {
+    if (w.defGot != defaultExt) orFail(res, "extents", "value-initialised extents report " + listStr(w.defGot));
+    orFail(res, "default mapping", checkMap(c.lay, defaultExt, canonStrides(RIGHT, defaultExt), w.def));
   } else orFail(res, "default mapping", RANK0_MSG);
   return res;
 }
 
-template <class E, class L> Result doConv(const Ctx& c) {
+template <class E, class L> Result doMap(const Ctx& c) { return mapJudge(c, mapRaw<E, L>(c), defaultExt<E>()); }
+
+struct ConvRaw {
+  bool rank0 = false, hasMid = false, hasEq = false, eq = false, hasMidEq = false, midEq = false, hasFlip = false, sameRD = false;
+  MapObs src, mid, fin;
+  VL fe, be;  // flipped extents and the extents converted back
+};
+
+template <class E, class L> ConvRaw convRaw(const Ctx& c) {
   using I = typename E::index_type;
   using M = typename L::template mapping<E>;
   constexpr std::size_t R = E::rank();
+  ConvRaw w;
   E e = makeExt<E>("afull", c.ext);
   M m = makeMap<L>(e, c.str);
-  MapObs src = observe(m);
-  Result res;
-  auto same = [&](const char* what, const MapObs& o, int lay, const VL& str) {
-    orFail(res, what, checkMap(lay, c.ext, str, o));
-    if (o.offs != src.offs) orFail(res, what, "converted mapping addresses differently: " + listStr(o.offs) + " vs " + listStr(src.offs));
-    if (o.rss != src.rss) orFail(res, what, "required_span_size changed");
-  };
+  w.src = observe(m);
   if (c.x == "stride") {
     if constexpr (isStride<L> || strideFromAny<E>) {
       S::layout_stride::mapping<E> mid(m);
       M fin(mid);
-      MapObs om = observe(mid), of = observe(fin);
-      res.impl = "mid=" + blockStr(om) + " fin=" + blockStr(of);
-      same("to stride", om, STRIDE, src.str);
-      same("and back", of, c.lay, c.str);
+      w.hasMid = true;
+      w.mid = observe(mid);
+      w.fin = observe(fin);
       // (operator== between a strided mapping and a left/right mapping does not compile in dune-common: it reads
       //  b.extents_/b.strides_; mapping equality is not part of C14, so only same-type comparison is used)
-      if constexpr (isStride<L>)
-        if (!(mid == m)) orFail(res, "to stride", "operator== false");
-      return res;
-    } else return rank0Failure();
+      if constexpr (isStride<L>) { w.hasMidEq = true; w.midEq = (mid == m); }
+    } else w.rank0 = true;
+    return w;
   }
   if (c.x == "dyn") {
-   if constexpr (!isStride<L> || strideFromAny<E>) {
-    using E2 = S::dextents<OtherIndex<I>, R>;
-    typename L::template mapping<E2> mid(m);
-    M fin(mid);
-    MapObs om = observe(mid), of = observe(fin);
-    bool eq = (mid.extents() == e) && (e == fin.extents());
-    res.impl = std::string("eq=") + (eq ? "true" : "false") + " mid=" + blockStr(om) + " fin=" + blockStr(of);
-    if (!eq) orFail(res, "extents conversion", "operator== false");
-    same("to dextents", om, c.lay, c.str);
-    same("and back", of, c.lay, c.str);
-    return res;
-   } else return rank0Failure();
+    if constexpr (!isStride<L> || strideFromAny<E>) {
+      using E2 = S::dextents<OtherIndex<I>, R>;
+      typename L::template mapping<E2> mid(m);
+      M fin(mid);
+      w.hasMid = true;
+      w.mid = observe(mid);
+      w.fin = observe(fin);
+      w.hasEq = true;
+      w.eq = (mid.extents() == e) && (e == fin.extents());
+    } else w.rank0 = true;
+    return w;
   }
   if (c.x == "flip1" || c.x == "flip2") {
-    auto run = [&](auto mode) -> Result {
+    auto run = [&](auto mode) {
       using F = Flip<E, decltype(mode)::value>;
       if (!flipOk<F>(c.ext)) throw BadOp{};
       if constexpr (!isStride<L> || strideFromAny<E>) {
-        // the extents alone, there and back
-        F ef(e);
+        F ef(e);  // the extents alone, there and back
         E eb(ef);
-        if (extOf(ef) != c.ext) orFail(res, "extents conversion", "converted extents " + listStr(extOf(ef)) + " differ from " + listStr(c.ext));
-        if (extOf(eb) != c.ext) orFail(res, "extents conversion", "extents converted back " + listStr(extOf(eb)) + " differ from " + listStr(c.ext));
-        // the mappings
+        w.hasFlip = true;
+        w.fe = extOf(ef);
+        w.be = extOf(eb);
         typename L::template mapping<F> mid(m);
         M fin(mid);
-        MapObs om = observe(mid), of = observe(fin);
-        bool eq = (ef == e) && (e == eb) && (mid.extents() == e) && (e == fin.extents());
-        res.impl = std::string("eq=") + (eq ? "true" : "false") + " mid=" + blockStr(om) + " fin=" + blockStr(of);
-        if (!eq) orFail(res, "extents conversion", "operator== false");
-        same("to flipped extents", om, c.lay, c.str);
-        same("and back", of, c.lay, c.str);
-        stat(F::rank_dynamic() == E::rank_dynamic() && E::rank_dynamic() > 0 ? "conv_flip_same_rank_dynamic" : "conv_flip_other_rank_dynamic");
-        return res;
-      } else return rank0Failure();
+        w.hasMid = true;
+        w.mid = observe(mid);
+        w.fin = observe(fin);
+        w.hasEq = true;
+        w.eq = (ef == e) && (e == eb) && (mid.extents() == e) && (e == fin.extents());
+        w.sameRD = F::rank_dynamic() == E::rank_dynamic() && E::rank_dynamic() > 0;
+      } else w.rank0 = true;
     };
-    return c.x == "flip1" ? run(std::integral_constant<int, 1>{}) : run(std::integral_constant<int, 2>{});
+    if (c.x == "flip1") run(std::integral_constant<int, 1>{}); else run(std::integral_constant<int, 2>{});
+    return w;
   }
   if (c.x == "lr") {
     if constexpr (R <= 1 && !isStride<L>) {
       using O = std::conditional_t<std::is_same_v<L, S::layout_left>, S::layout_right, S::layout_left>;
       typename O::template mapping<E> mid(m);
       M fin(mid);
-      MapObs om = observe(mid), of = observe(fin);
-      res.impl = "mid=" + blockStr(om) + " fin=" + blockStr(of);
-      same("left<->right", om, c.lay == LEFT ? RIGHT : LEFT, c.str);
-      same("and back", of, c.lay, c.str);
-      return res;
+      w.hasMid = true;
+      w.mid = observe(mid);
+      w.fin = observe(fin);
+      return w;
     } else throw BadOp{};
   }
   if (c.x == "toleft" || c.x == "toright") {
     if constexpr (isStride<L>) {
-      int tl = c.x == "toleft" ? LEFT : RIGHT;
-      // precondition of the constructor (asserted by it): the strides are the canonical products
-      for (std::size_t r = 0; r < R; ++r) {
-        long want = 1;
-        if (tl == LEFT) for (std::size_t k = 0; k < r; ++k) want *= c.ext[k];
-        else for (std::size_t k = r + 1; k < R; ++k) want *= c.ext[k];
-        if (c.str[r] != want) throw BadOp{};
-      }
-      MapObs of;
-      if (tl == LEFT) { S::layout_left::mapping<E> fin(m); of = observe(fin); }
-      else { S::layout_right::mapping<E> fin(m); of = observe(fin); }
-      res.impl = "fin=" + blockStr(of);
-      same("from stride", of, tl, c.str);
-      return res;
+      if (c.x == "toleft") { S::layout_left::mapping<E> fin(m); w.fin = observe(fin); }
+      else { S::layout_right::mapping<E> fin(m); w.fin = observe(fin); }
+      return w;
     } else throw BadOp{};
   }
   throw BadOp{};
+}
+
+// precondition of the from-stride constructors (asserted by them): the strides are the canonical products
+static void requireCanonical(const Ctx& c) {
+  if (c.x != "toleft" && c.x != "toright") return;
+  if (c.lay != STRIDE) throw BadOp{};
+  if (c.str != canonStrides(c.x == "toleft" ? LEFT : RIGHT, c.ext)) throw BadOp{};
+}
+
+static Result convJudge(const Ctx& c, const ConvRaw& w) {
+  if (w.rank0) return rank0Failure();
+  Result res;
+  auto same = [&](const char* what, const MapObs& o, int lay, const VL& str) {
+    orFail(res, what, checkMap(lay, c.ext, str, o));
+    if (o.offs != w.src.offs) orFail(res, what, "converted mapping addresses differently: " + listStr(o.offs) + " vs " + listStr(w.src.offs));
+    if (o.rss != w.src.rss) orFail(res, what, "required_span_size changed");
+  };
+  std::string pre;
+  if (w.hasEq) pre = std::string("eq=") + (w.eq ? "true" : "false") + " ";
+  if (w.hasMid) res.impl = pre + "mid=" + blockStr(w.mid) + " fin=" + blockStr(w.fin);
+  else res.impl = "fin=" + blockStr(w.fin);
+  if (w.hasEq && !w.eq) orFail(res, "extents conversion", "operator== false");
+  if (w.hasMidEq && !w.midEq) orFail(res, "to stride", "operator== false");
+  if (w.hasFlip) {
+    if (w.fe != c.ext) orFail(res, "extents conversion", "converted extents " + listStr(w.fe) + " differ from " + listStr(c.ext));
+    if (w.be != c.ext) orFail(res, "extents conversion", "extents converted back " + listStr(w.be) + " differ from " + listStr(c.ext));
+    stat(w.sameRD ? "conv_flip_same_rank_dynamic" : "conv_flip_other_rank_dynamic");
+  }
+  if (c.x == "stride") { same("to stride", w.mid, STRIDE, w.src.str); same("and back", w.fin, c.lay, c.str); }
+  else if (c.x == "dyn") { same("to dextents", w.mid, c.lay, c.str); same("and back", w.fin, c.lay, c.str); }
+  else if (c.x == "flip1" || c.x == "flip2") { same("to flipped extents", w.mid, c.lay, c.str); same("and back", w.fin, c.lay, c.str); }
+  else if (c.x == "lr") { same("left<->right", w.mid, c.lay == LEFT ? RIGHT : LEFT, c.str); same("and back", w.fin, c.lay, c.str); }
+  else same("from stride", w.fin, c.x == "toleft" ? LEFT : RIGHT, c.str);
+  return res;
+}
+
+template <class E, class L> Result doConv(const Ctx& c) {
+  requireCanonical(c);
+  return convJudge(c, convRaw<E, L>(c));
 }
 
 static bool validAcc(const std::string& a, std::size_t rank) {
@@ -516,6 +563,137 @@ static bool validAcc(const std::string& a, std::size_t rank) {
 }
 static bool isCtorForm(const std::string& a) {
   return a == "vdyn" || a == "vfull" || a == "adyn" || a == "sdyn" || a == "sfull" || a == "def" || a == "swap";
+}
+
+// ------------------------------------------------------------------------------------------------------------------
+// mdspan: the templates record plain data (positions of the returned references relative to the storage, values,
+// sizes); `viewJudge` compares them with the independent expectation
+// ------------------------------------------------------------------------------------------------------------------
+
+// position of the element `p` in the storage starting at `base` (a value no offset can have if it is not an element)
+static long posOf(const void* p, const void* base, std::size_t elemSize) {
+  std::ptrdiff_t d = static_cast<const char*>(p) - static_cast<const char*>(base);
+  if (d % (std::ptrdiff_t)elemSize != 0) return -1000000007L;
+  return long(d / (std::ptrdiff_t)elemSize);
+}
+
+struct FlipRaw {
+  bool applicable = false;
+  VL ext, ext2, backExt, offs, vals, vals2, cont;
+  long size = 0;
+};
+struct ViewRaw {
+  long rss = 0, size = 0, size3 = 0, rank = 0, rdyn = 0;
+  bool tooBig = false, handleOk = true, defaultOk = true, swapOk = true, accOk = true, empty = false, exhOk = true, flags = true, isAcc = false;
+  VL refOff, mapOff, elems, logged, store, copyOff, convOff, conv, convLogged, ext, ext3, stride, mstride, sext;
+  FlipRaw flip[2];
+};
+
+// the view in the requested constructor form (strided mappings cannot be built from extents: always (p, mapping))
+template <class MS, class E, class L, class M> MS buildMdspan(const Ctx& c, int* p, const E& e, const M& m, ViewRaw& w) {
+  using I = typename E::index_type;
+  constexpr std::size_t R = E::rank(), RD = E::rank_dynamic();
+  const std::string& f = c.x;
+  if constexpr (!isStride<L>) {
+    std::array<I, R> af = toArr<I, R>(c.ext);
+    std::array<I, RD> ad{};
+    for (std::size_t r = 0, j = 0; r < R; ++r)
+      if (E::static_extent(r) == D) ad[j++] = I(c.ext[r]);
+    if (f == "arr") return MS(p, e);
+    if (f == "span") return MS(p, af);
+    if (f == "vfull") return std::apply([&](auto... x) { return MS(p, x...); }, af);
+    if (f == "vdyn") return std::apply([&](auto... x) { return MS(p, x...); }, ad);
+    if (f == "adyn") return MS(p, ad);
+    if (f == "sdyn") return MS(p, S::span<I, RD>(ad));
+    if (f == "sfull") return MS(p, S::span<I, R>(af));
+  }
+  if (f == "def") {
+    if constexpr (RD > 0) {
+      MS d;
+      w.defaultOk = extOf(d.extents()) == defaultExt<E>() && d.size() == 0 && d.empty() && d.data_handle() == nullptr;
+      d = MS(p, m);
+      return d;
+    } else throw BadOp{};
+  }
+  if (f == "swap") {
+    // (without fixes/C14_stride_rank0.patch a rank-0 strided mapping has no usable default constructor)
+    auto other = [&]() { if constexpr (!isStride<L> || strideFromAny<E>) return M{}; else return m; };
+    MS a(p, m), b(static_cast<int*>(nullptr), other());
+    swap(a, b);
+    w.swapOk = a.data_handle() == nullptr && extOf(a.extents()) == defaultExt<E>();
+    return b;
+  }
+  return MS(p, m);
+}
+
+// a view converted to an extents type with other dynamic positions (and back)
+template <int MODE, class E, class L, class MS> void flipView(const Ctx& c, const MS& ms, const int* base, const std::vector<VL>& tuples, FlipRaw& f) {
+  using F = Flip<E, MODE>;
+  constexpr std::size_t R = E::rank();
+  if (!flipOk<F>(c.ext)) return;
+  if constexpr (!isStride<L> || strideFromAny<E>) {
+    f.applicable = true;
+    S::mdspan<const int, F, L> mf(ms);
+    f.ext = extOf(mf.extents());
+    f.size = long(mf.size());
+    for (auto& t : tuples)
+      f.offs.push_back(posOf(&std::apply([&](auto... i) -> const int& { return mf(i...); }, toArr<typename F::index_type, R>(t)), base, sizeof(int)));
+    S::mdspan<const int, E, L> back(mf);
+    f.backExt = extOf(back.extents());
+  }
+}
+
+template <class E, class L> ViewRaw viewRaw(const Ctx& c, const std::vector<VL>& tuples) {
+  using I = typename E::index_type;
+  using M = typename L::template mapping<E>;
+  constexpr std::size_t R = E::rank();
+  ViewRaw w;
+  const std::string acc = isCtorForm(c.x) ? "call" : c.x;
+  E e = makeExt<E>("afull", c.ext);
+  M m = makeMap<L>(e, c.str);
+  w.rss = long(m.required_span_size());
+  if (w.rss < 0 || w.rss > 1000000) { w.tooBig = true; return w; }
+  std::vector<int> v(w.rss);
+  for (long k = 0; k < w.rss; ++k) v[k] = int(k);
+  using MS = S::mdspan<int, E, L>;
+  MS ms = buildMdspan<MS, E, L, M>(c, v.data(), e, m, w);
+  w.handleOk = ms.data_handle() == v.data();
+  for (auto& t : tuples) {
+    int& ref = accessAt(ms, acc, toArr<I, R>(t));
+    w.refOff.push_back(posOf(&ref, v.data(), sizeof(int)));
+    w.mapOff.push_back(callMap(m, t));
+    w.elems.push_back(ref);
+  }
+  long n = 0;
+  for (auto& t : tuples) accessAt(ms, acc, toArr<I, R>(t)) = int(100 + n++);
+  w.store.assign(v.begin(), v.end());
+  MS ms2 = ms;  // copy
+  // conversion of element, extents and index type
+  using E3 = std::conditional_t<(!isStride<L> || strideFromAny<E>), S::dextents<OtherIndex<I>, R>, E>;
+  S::mdspan<const int, E3, L> ms3(ms);
+  for (auto& t : tuples) {
+    w.copyOff.push_back(posOf(&accessAt(ms2, "call", toArr<I, R>(t)), v.data(), sizeof(int)));
+    const int& r3 = std::apply([&](auto... i) -> const int& { return ms3(i...); }, toArr<typename E3::index_type, R>(t));
+    w.convOff.push_back(posOf(&r3, v.data(), sizeof(int)));
+    w.conv.push_back(r3);
+  }
+  flipView<1, E, L>(c, ms, v.data(), tuples, w.flip[0]);
+  flipView<2, E, L>(c, ms, v.data(), tuples, w.flip[1]);
+  w.ext = extOf(ms.extents());
+  w.ext3 = extOf(ms3.extents());
+  for (std::size_t r = 0; r < R; ++r) {
+    w.ext[r] = long(ms.extent(r));
+    if constexpr (R > 0) { w.stride.push_back(long(ms.stride(r))); w.mstride.push_back(long(m.stride(r))); }
+    w.sext.push_back(ms.static_extent(r) == D ? -1 : long(ms.static_extent(r)));
+  }
+  w.size = long(ms.size());
+  w.size3 = long(ms3.size());
+  w.empty = ms.empty();
+  w.rank = long(ms.rank());
+  w.rdyn = long(ms.rank_dynamic());
+  w.exhOk = ms.is_exhaustive() == m.is_exhaustive();
+  w.flags = ms.is_unique() && ms.is_strided();
+  return w;
 }
 
 // a data handle that is not a raw pointer and an accessor policy that records every offset it is asked for
@@ -543,277 +721,243 @@ template <class T> struct RecAcc {
   data_handle_type offset(data_handle_type p, std::size_t i) const { return data_handle_type(p.base + i); }
 };
 
-// the view in the requested constructor form (strided mappings cannot be built from extents: always (p, mapping))
-template <class MS, class E, class L, class M> MS buildMdspan(const Ctx& c, int* p, const E& e, const M& m, Result& res) {
-  using I = typename E::index_type;
-  constexpr std::size_t R = E::rank(), RD = E::rank_dynamic();
-  const std::string& f = c.x;
-  if constexpr (!isStride<L>) {
-    std::array<I, R> af = toArr<I, R>(c.ext);
-    std::array<I, RD> ad{};
-    for (std::size_t r = 0, j = 0; r < R; ++r)
-      if (E::static_extent(r) == D) ad[j++] = I(c.ext[r]);
-    if (f == "arr") return MS(p, e);
-    if (f == "span") return MS(p, af);
-    if (f == "vfull") return std::apply([&](auto... x) { return MS(p, x...); }, af);
-    if (f == "vdyn") return std::apply([&](auto... x) { return MS(p, x...); }, ad);
-    if (f == "adyn") return MS(p, ad);
-    if (f == "sdyn") return MS(p, S::span<I, RD>(ad));
-    if (f == "sfull") return MS(p, S::span<I, R>(af));
-  }
-  if (f == "def") {
-    if constexpr (RD > 0) {
-      MS d;
-      VL got;
-      for (std::size_t r = 0; r < R; ++r) got.push_back(long(d.extent(r)));
-      if (got != defaultExt<E>() || d.size() != 0 || !d.empty() || d.data_handle() != nullptr)
-        orFail(res, "mdspan", "default-constructed view is not the empty view over value-initialised extents");
-      d = MS(p, m);
-      return d;
-    } else throw BadOp{};
-  }
-  if (f == "swap") {
-    MS a(p, m), b(static_cast<int*>(nullptr), M{});
-    swap(a, b);
-    VL got;
-    for (std::size_t r = 0; r < R; ++r) got.push_back(long(a.extent(r)));
-    if (a.data_handle() != nullptr || got != defaultExt<E>()) orFail(res, "mdspan", "swap did not exchange handle and mapping");
-    return b;
-  }
-  return MS(p, m);
-}
-
-// views converted to an extents type with other dynamic positions refer to the same elements and report the same extents
-template <int MODE, class E, class L, class MS>
-void flipView(const Ctx& c, const MS& ms, const int* base, const std::vector<VL>& tuples, std::map<VL, long>& exp, Result& res) {
-  using F = Flip<E, MODE>;
-  constexpr std::size_t R = E::rank();
-  if (!flipOk<F>(c.ext)) return;
-  if constexpr (!isStride<L> || strideFromAny<E>) {
-    S::mdspan<const int, F, L> mf(ms);
-    if (extOf(mf.extents()) != c.ext) orFail(res, "mdspan", "view converted to flipped extents reports extents " + listStr(extOf(mf.extents())));
-    if (long(mf.size()) != (long)tuples.size()) orFail(res, "mdspan", "view converted to flipped extents reports another size");
-    for (auto& t : tuples) {
-      const int& r = std::apply([&](auto... i) -> const int& { return mf(i...); }, toArr<typename F::index_type, R>(t));
-      if (&r != base + exp[t]) { orFail(res, "mdspan", "view converted to flipped extents refers to a different element at " + listStr(t)); break; }
-    }
-    S::mdspan<const int, E, L> back(mf);
-    if (extOf(back.extents()) != c.ext) orFail(res, "mdspan", "view converted back reports extents " + listStr(extOf(back.extents())));
-    stat("mdspan_flip_checked");
-  }
-}
-
-template <class E, class L> Result doMdspanAcc(const Ctx& c);
-
-template <class E, class L> Result doMdspan(const Ctx& c) {
-  using I = typename E::index_type;
-  using M = typename L::template mapping<E>;
-  constexpr std::size_t R = E::rank();
-  if (c.x == "acc") return doMdspanAcc<E, L>(c);
-  if (!validAcc(c.x, R) && !isCtorForm(c.x)) throw BadOp{};
-  const std::string acc = isCtorForm(c.x) ? "call" : c.x;
-  E e = makeExt<E>("afull", c.ext);
-  M m = makeMap<L>(e, c.str);
-  long rss = long(m.required_span_size());
-  if (rss < 0 || rss > 1000000) { Result r; r.impl = "rss=" + std::to_string(rss); r.oracle = "FAIL required_span_size out of any sensible range"; return r; }
-  std::vector<int> v(rss);
-  for (long k = 0; k < rss; ++k) v[k] = int(k);
-  using MS = S::mdspan<int, E, L>;
-  Result res;
-  MS ms = buildMdspan<MS, E, L, M>(c, v.data(), e, m, res);
-  if (ms.data_handle() != v.data()) orFail(res, "mdspan", "data_handle()");
-  auto tuples = tuplesRowMajor(c.ext);
-  auto exp = expectedOffsets(c.lay, c.ext, c.str);
-  VL elems, conv, ext;
-  std::vector<int> shadow(v);
-  for (auto& t : tuples) {
-    int& ref = accessAt(ms, acc, toArr<I, R>(t));
-    if (&ref != v.data() + callMap(m, t)) orFail(res, "mdspan", "reference is not data_handle + mapping(idx) at " + listStr(t));
-    if (&ref != v.data() + exp[t]) orFail(res, "mdspan", "reference is not the designated element at " + listStr(t));
-    elems.push_back(ref);
-  }
-  long n = 0;
-  for (auto& t : tuples) {
-    accessAt(ms, acc, toArr<I, R>(t)) = int(100 + n);
-    if (exp[t] >= 0 && exp[t] < rss) shadow[exp[t]] = int(100 + n);
-    ++n;
-  }
-  if (shadow != v) orFail(res, "mdspan", "writes through the view did not hit exactly the designated elements");
-  MS ms2 = ms;  // copy
-  // conversion of element, extents and index type
-  using E3 = std::conditional_t<(!isStride<L> || strideFromAny<E>), S::dextents<OtherIndex<I>, R>, E>;
-  S::mdspan<const int, E3, L> ms3(ms);
-  for (auto& t : tuples) {
-    const int& r2 = accessAt(ms2, "call", toArr<I, R>(t));
-    const int& r3 = std::apply([&](auto... i) -> const int& { return ms3(i...); }, toArr<typename E3::index_type, R>(t));
-    if (&r2 != v.data() + exp[t] || &r3 != v.data() + exp[t]) orFail(res, "mdspan", "copy/conversion refers to a different element at " + listStr(t));
-    conv.push_back(r3);
-  }
-  flipView<1, E, L>(c, ms, v.data(), tuples, exp, res);
-  flipView<2, E, L>(c, ms, v.data(), tuples, exp, res);
-  if constexpr (R > 0)
-    for (std::size_t r = 0; r < R; ++r) {
-      ext.push_back(long(ms.extent(r)));
-      if (ms.extent(r) != ms.extents().extent(r) || long(ms3.extent(r)) != long(ms.extent(r))) orFail(res, "mdspan", "extent() inconsistent");
-      if (long(ms.stride(r)) != long(m.stride(r))) orFail(res, "mdspan", "stride() inconsistent");
-      if (ms.static_extent(r) != E::static_extent(r)) orFail(res, "mdspan", "static_extent()");
-    }
-  if (ext != c.ext) orFail(res, "mdspan", "extents");
-  if (long(ms.size()) != (long)tuples.size() || ms.empty() != tuples.empty() || long(ms3.size()) != long(ms.size())) orFail(res, "mdspan", "size()/empty() do not count the index tuples");
-  if (ms.rank() != R || ms.rank_dynamic() != E::rank_dynamic()) orFail(res, "mdspan", "rank");
-  if (ms.is_exhaustive() != m.is_exhaustive() || !ms.is_unique() || !ms.is_strided()) orFail(res, "mdspan", "is_exhaustive/is_unique/is_strided differ from the mapping");
-  res.impl = "size=" + std::to_string(long(ms.size())) + " empty=" + (ms.empty() ? "true" : "false") + " ext=" + listStr(ext) +
-             " elems=" + listStr(elems) + " store=" + listStr(v) + " conv=" + listStr(conv);
-  return res;
-}
-
-// the same observations through a view with a custom accessor policy / data handle and another element type; every
-// access must ask the accessor for exactly the offset the mapping designates
-template <class E, class L> Result doMdspanAcc(const Ctx& c) {
+// the same observations through a view with a custom accessor policy / data handle and another element type
+template <class E, class L> ViewRaw viewRawAcc(const Ctx& c, const std::vector<VL>& tuples) {
   using I = typename E::index_type;
   using M = typename L::template mapping<E>;
   using T = long long;
   constexpr std::size_t R = E::rank();
+  ViewRaw w;
+  w.isAcc = true;
   E e = makeExt<E>("afull", c.ext);
   M m = makeMap<L>(e, c.str);
-  long rss = long(m.required_span_size());
-  if (rss < 0 || rss > 1000000) { Result r; r.impl = "rss=" + std::to_string(rss); r.oracle = "FAIL required_span_size out of any sensible range"; return r; }
-  std::vector<T> v(rss);
-  for (long k = 0; k < rss; ++k) v[k] = T(k);
+  w.rss = long(m.required_span_size());
+  if (w.rss < 0 || w.rss > 1000000) { w.tooBig = true; return w; }
+  std::vector<T> v(w.rss);
+  for (long k = 0; k < w.rss; ++k) v[k] = T(k);
   std::vector<std::size_t> log;
+  auto logged = [&]() { return log.size() == 1 ? long(log[0]) : -1L - long(log.size()); };
   using MS = S::mdspan<T, E, L, RecAcc<T>>;
   MS ms(Handle<T>(v.data()), m, RecAcc<T>(&log));
-  Result res;
-  auto tuples = tuplesRowMajor(c.ext);
-  auto exp = expectedOffsets(c.lay, c.ext, c.str);
-  VL elems, conv, ext;
-  std::vector<T> shadow(v);
   for (auto& t : tuples) {
     log.clear();
     T& ref = std::apply([&](auto... i) -> T& { return ms(i...); }, toArr<I, R>(t));
-    if (log.size() != 1 || long(log[0]) != exp[t]) orFail(res, "mdspan", "the accessor was not asked for exactly the designated offset at " + listStr(t));
-    if (&ref != v.data() + exp[t]) orFail(res, "mdspan", "reference is not the designated element at " + listStr(t));
-    elems.push_back(long(ref));
+    w.logged.push_back(logged());
+    w.refOff.push_back(posOf(&ref, v.data(), sizeof(T)));
+    w.mapOff.push_back(callMap(m, t));
+    w.elems.push_back(long(ref));
   }
   long n = 0;
-  for (auto& t : tuples) {
-    ms[toArr<I, R>(t)] = T(100 + n);
-    if (exp[t] >= 0 && exp[t] < rss) shadow[exp[t]] = T(100 + n);
-    ++n;
-  }
-  if (shadow != v) orFail(res, "mdspan", "writes through the view did not hit exactly the designated elements");
+  for (auto& t : tuples) ms[toArr<I, R>(t)] = T(100 + n++);
+  w.store.assign(v.begin(), v.end());
   using E3 = std::conditional_t<(!isStride<L> || strideFromAny<E>), S::dextents<OtherIndex<I>, R>, E>;
   S::mdspan<const T, E3, L, RecAcc<const T>> ms3(ms);
   for (auto& t : tuples) {
     log.clear();
     const T& r3 = std::apply([&](auto... i) -> const T& { return ms3(i...); }, toArr<typename E3::index_type, R>(t));
-    if (log.size() != 1 || long(log[0]) != exp[t] || &r3 != v.data() + exp[t]) orFail(res, "mdspan", "converted view refers to a different element at " + listStr(t));
-    conv.push_back(long(r3));
+    w.convLogged.push_back(logged());
+    w.convOff.push_back(posOf(&r3, v.data(), sizeof(T)));
+    w.conv.push_back(long(r3));
   }
-  for (std::size_t r = 0; r < R; ++r) ext.push_back(long(ms.extent(r)));
-  if (ext != c.ext) orFail(res, "mdspan", "extents");
-  if (long(ms.size()) != (long)tuples.size() || ms.empty() != tuples.empty()) orFail(res, "mdspan", "size()/empty() do not count the index tuples");
-  if (ms.accessor().log != &log || ms.data_handle().base != v.data()) orFail(res, "mdspan", "accessor()/data_handle()");
-  res.impl = "size=" + std::to_string(long(ms.size())) + " empty=" + (ms.empty() ? "true" : "false") + " ext=" + listStr(ext) +
-             " elems=" + listStr(elems) + " store=" + listStr(v) + " conv=" + listStr(conv);
+  w.copyOff = w.convOff;
+  w.ext = extOf(ms.extents());
+  w.ext3 = extOf(ms3.extents());
+  for (std::size_t r = 0; r < R; ++r) w.sext.push_back(ms.static_extent(r) == D ? -1 : long(ms.static_extent(r)));
+  w.size = long(ms.size());
+  w.size3 = long(ms3.size());
+  w.empty = ms.empty();
+  w.rank = long(ms.rank());
+  w.rdyn = long(ms.rank_dynamic());
+  w.accOk = ms.accessor().log == &log && ms.data_handle().base == v.data();
+  return w;
+}
+
+static Result viewJudge(const Ctx& c, const ViewRaw& w, const std::vector<VL>& tuples) {
+  Result res;
+  if (w.tooBig) { res.impl = "rss=" + std::to_string(w.rss); res.oracle = "FAIL required_span_size out of any sensible range"; return res; }
+  auto exp = expectedOffsets(c.lay, c.ext, c.str);
+  std::size_t n = tuples.size();
+  if (!w.handleOk) orFail(res, "mdspan", "data_handle()");
+  if (!w.defaultOk) orFail(res, "mdspan", "default-constructed view is not the empty view over value-initialised extents");
+  if (!w.swapOk) orFail(res, "mdspan", "swap did not exchange handle and mapping");
+  if (!w.accOk) orFail(res, "mdspan", "accessor()/data_handle()");
+  if (w.refOff.size() != n || w.convOff.size() != n || w.copyOff.size() != n) orFail(res, "mdspan", "number of observations");
+  else {
+    std::vector<long> shadow(w.rss);
+    for (long k = 0; k < w.rss; ++k) shadow[k] = k;
+    for (std::size_t i = 0; i < n; ++i) {
+      long e = exp[tuples[i]];
+      if (w.refOff[i] != w.mapOff[i]) orFail(res, "mdspan", "reference is not data_handle + mapping(idx) at " + listStr(tuples[i]));
+      if (w.refOff[i] != e) orFail(res, "mdspan", "reference is not the designated element at " + listStr(tuples[i]));
+      if (w.isAcc && (w.logged[i] != e || w.convLogged[i] != e)) orFail(res, "mdspan", "the accessor was not asked for exactly the designated offset at " + listStr(tuples[i]));
+      if (w.copyOff[i] != e || w.convOff[i] != e) orFail(res, "mdspan", "copy/conversion refers to a different element at " + listStr(tuples[i]));
+      if (e >= 0 && e < w.rss) shadow[e] = 100 + long(i);
+    }
+    if (shadow != w.store) orFail(res, "mdspan", "writes through the view did not hit exactly the designated elements");
+  }
+  if (w.ext != c.ext) orFail(res, "mdspan", "extents");
+  if (w.ext3 != w.ext) orFail(res, "mdspan", "extent() inconsistent after conversion");
+  if (w.stride != w.mstride) orFail(res, "mdspan", "stride() inconsistent");
+  if (w.sext != c.patv) orFail(res, "mdspan", "static_extent()");
+  if (w.size != (long)n || w.empty != (n == 0) || w.size3 != w.size) orFail(res, "mdspan", "size()/empty() do not count the index tuples");
+  if (w.rank != (long)c.patv.size()) orFail(res, "mdspan", "rank");
+  long rd = 0;
+  for (long q : c.patv) rd += q < 0;
+  if (w.rdyn != rd) orFail(res, "mdspan", "rank_dynamic");
+  if (!w.exhOk || !w.flags) orFail(res, "mdspan", "is_exhaustive/is_unique/is_strided differ from the mapping");
+  for (int k = 0; k < 2; ++k) {
+    const FlipRaw& f = w.flip[k];
+    if (!f.applicable) continue;
+    stat("mdspan_flip_checked");
+    if (f.ext != c.ext) orFail(res, "mdspan", "view converted to flipped extents reports extents " + listStr(f.ext));
+    if (f.backExt != c.ext) orFail(res, "mdspan", "view converted back reports extents " + listStr(f.backExt));
+    if (f.size != (long)n) orFail(res, "mdspan", "view converted to flipped extents reports another size");
+    for (std::size_t i = 0; i < n && i < f.offs.size(); ++i)
+      if (f.offs[i] != exp[tuples[i]]) { orFail(res, "mdspan", "view converted to flipped extents refers to a different element at " + listStr(tuples[i])); break; }
+  }
+  res.impl = "size=" + std::to_string(w.size) + " empty=" + (w.empty ? "true" : "false") + " ext=" + listStr(w.ext) +
+             " elems=" + listStr(w.elems) + " store=" + listStr(w.store) + " conv=" + listStr(w.conv);
   return res;
 }
 
-// everything after construction: sizes, initial contents, element access, views, copies
-template <class E, class L, class A, class M>
-Result mdarrayBody(A& a, const M& m, const Ctx& c, const std::vector<VL>& tuples, std::map<VL, long>& exp, long want,
-                   const std::vector<int>& expectInit, Result res) {
+template <class E, class L> Result doMdspan(const Ctx& c) {
+  constexpr std::size_t R = E::rank();
+  if (c.x != "acc" && !validAcc(c.x, R) && !isCtorForm(c.x)) throw BadOp{};
+  auto tuples = tuplesRowMajor(c.ext);
+  if (c.x == "acc") return viewJudge(c, viewRawAcc<E, L>(c, tuples), tuples);
+  return viewJudge(c, viewRaw<E, L>(c, tuples), tuples);
+}
+
+// ------------------------------------------------------------------------------------------------------------------
+// mdarray: everything after construction (sizes, initial contents, element access, views, copies, conversions)
+// ------------------------------------------------------------------------------------------------------------------
+
+struct ArrRaw {
+  long csize = 0, size = 0;
+  bool empty = false, cv2ExtEq = true, otherEq = false, copyEq = true, copyIndep = true, copyNe = true;
+  VL init, getC, refOff, after, view, vwOff, cvwOff, vw2Off, cv2Off, extracted, ext, stride, mstride;
+  FlipRaw flip[2];
+};
+
+template <class E, class L, class A, class M> ArrRaw arrRaw(A& a, const M& m, const Ctx& c, const std::vector<VL>& tuples) {
   using I = typename E::index_type;
   constexpr std::size_t R = E::rank();
-  long csize = long(a.container_size());
-  std::vector<int> init(a.container().begin(), a.container().end());
-  if (csize != want) orFail(res, "mdarray", "container_size " + std::to_string(csize) + " but required span is " + std::to_string(want));
-  if (init != expectInit) orFail(res, "mdarray", "initial contents");
-  // every element as seen through the array equals the element of the source it was built from
-  for (auto& t : tuples)
-    if (exp[t] < csize && accessAtC(std::as_const(a), c.acc, toArr<I, R>(t)) != expectInit[exp[t]]) orFail(res, "mdarray", "element after construction at " + listStr(t));
-  std::vector<int> shadow(init);
+  ArrRaw w;
+  w.csize = long(a.container_size());
+  w.init.assign(a.container().begin(), a.container().end());
+  // every element as seen through the (const) array right after construction (-1: outside the container, not read)
+  for (auto& t : tuples) w.getC.push_back(callMap(m, t) < w.csize ? long(accessAtC(std::as_const(a), c.acc, toArr<I, R>(t))) : -1L);
   long n = 0;
   for (auto& t : tuples) {
     int& ref = accessAt(a, c.acc, toArr<I, R>(t));
-    if (&ref != a.container_data() + exp[t]) orFail(res, "mdarray", "reference is not the designated element at " + listStr(t));
-    ref = int(100 + n);
-    if (exp[t] >= 0 && exp[t] < (long)shadow.size()) shadow[exp[t]] = int(100 + n);
-    ++n;
+    w.refOff.push_back(posOf(&ref, a.container_data(), sizeof(int)));
+    ref = int(100 + n++);
   }
-  std::vector<int> after(a.container().begin(), a.container().end());
-  if (after != shadow) orFail(res, "mdarray", "writes did not hit exactly the designated elements");
-  VL view, ext;
+  w.after.assign(a.container().begin(), a.container().end());
   auto vw = a.to_mdspan();
   auto cvw = std::as_const(a).to_mdspan();
-  S::mdspan<int, E, L> vw2 = a;  // conversion operator
+  S::mdspan<int, E, L> vw2 = a;                       // conversion operator
+  S::mdspan<const int, E, L> cv2 = std::as_const(a);  // conversion operator of a const array
   for (auto& t : tuples) {
     int& r1 = accessAt(vw, "call", toArr<I, R>(t));
-    const int& r2 = accessAtC(cvw, c.acc, toArr<I, R>(t));
-    int& r3 = accessAt(vw2, "call", toArr<I, R>(t));
-    if (&r1 != a.container_data() + exp[t] || &r2 != &r1 || &r3 != &r1) orFail(res, "mdarray", "to_mdspan view refers to a different element at " + listStr(t));
-    view.push_back(r1);
+    w.vwOff.push_back(posOf(&r1, a.container_data(), sizeof(int)));
+    w.cvwOff.push_back(posOf(&accessAtC(cvw, c.acc, toArr<I, R>(t)), a.container_data(), sizeof(int)));
+    w.vw2Off.push_back(posOf(&accessAt(vw2, "call", toArr<I, R>(t)), a.container_data(), sizeof(int)));
+    w.cv2Off.push_back(posOf(&accessAtC(cv2, "call", toArr<I, R>(t)), a.container_data(), sizeof(int)));
+    w.view.push_back(r1);
   }
-  {
-    S::mdspan<const int, E, L> cv2 = std::as_const(a);  // conversion operator of a const array
-    for (auto& t : tuples)
-      if (&accessAtC(cv2, "call", toArr<I, R>(t)) != a.container_data() + exp[t]) orFail(res, "mdarray", "const conversion to mdspan refers to a different element at " + listStr(t));
-    if (cv2.extents() != a.extents()) orFail(res, "mdarray", "const conversion to mdspan changes the extents");
-    typename A::container_type ex = A(a).extract_container();
-    if (std::vector<int>(ex.begin(), ex.end()) != after) orFail(res, "mdarray", "extract_container() does not return the elements");
-  }
-  // an array over the same container but with two different dynamic extents exchanged is a different array
+  w.cv2ExtEq = cv2.extents() == a.extents();
+  typename A::container_type ex = A(a).extract_container();
+  w.extracted.assign(ex.begin(), ex.end());
   if constexpr (std::is_same_v<typename A::container_type, std::vector<int>>) {
+    // an array over the same container but with two different dynamic extents exchanged is a different array
     for (std::size_t r1 = 0; r1 < R; ++r1)
       for (std::size_t r2 = r1 + 1; r2 < R; ++r2)
         if (E::static_extent(r1) == D && E::static_extent(r2) == D && c.ext[r1] != c.ext[r2]) {
           VL pe = c.ext;
           std::swap(pe[r1], pe[r2]);
           A other(makeExt<E>("afull", pe), a.container());
-          if (other == a || a == other) orFail(res, "mdarray", "operator== true although the extents differ");
+          if (other == a || a == other) w.otherEq = true;
         }
-  }
-  // arrays converted to an extents type with other dynamic positions (from the array and from its view)
-  if constexpr (std::is_same_v<typename A::container_type, std::vector<int>>) {
-    auto flipArr = [&](auto mode) {
+    // arrays converted to an extents type with other dynamic positions (from the array and from its view)
+    auto flipArr = [&](auto mode, FlipRaw& f) {
       using F = Flip<E, decltype(mode)::value>;
       if (!flipOk<F>(c.ext)) return;
+      f.applicable = true;
       S::mdarray<int, F, L> af(a);
-      S::mdarray<int, F, L> av(std::as_const(a).to_mdspan());
-      if (extOf(af.extents()) != c.ext || extOf(av.extents()) != c.ext)
-        orFail(res, "mdarray", "array converted to flipped extents reports extents " + listStr(extOf(af.extents())) + " / " + listStr(extOf(av.extents())));
-      if (std::vector<int>(af.container().begin(), af.container().end()) != after) orFail(res, "mdarray", "array converted to flipped extents has other elements");
+      S::mdarray<int, F, L> av(a.to_mdspan());  // (views of const elements are not accepted by this constructor)
+      f.ext = extOf(af.extents());
+      f.ext2 = extOf(av.extents());
+      f.cont.assign(af.container().begin(), af.container().end());
       for (auto& t : tuples) {
         auto idx = toArr<typename F::index_type, R>(t);
-        if (exp[t] >= (long)after.size()) break;
-        if (&af[idx] != af.container_data() + exp[t] || af[idx] != after[exp[t]] || av[idx] != after[exp[t]]) {
-          orFail(res, "mdarray", "array converted to flipped extents holds a different element at " + listStr(t));
-          break;
-        }
+        if (callMap(m, t) >= w.csize) break;
+        f.offs.push_back(posOf(&af[idx], af.container_data(), sizeof(int)));
+        f.vals.push_back(af[idx]);
+        f.vals2.push_back(av[idx]);
       }
-      E eb(af.extents());
-      if (extOf(eb) != c.ext) orFail(res, "mdarray", "extents converted back differ");
-      stat("mdarray_flip_checked");
+      f.backExt = extOf(E(af.extents()));
     };
-    flipArr(std::integral_constant<int, 1>{});
-    flipArr(std::integral_constant<int, 2>{});
+    flipArr(std::integral_constant<int, 1>{}, w.flip[0]);
+    flipArr(std::integral_constant<int, 2>{}, w.flip[1]);
   }
   A b(a);  // copies own their elements
-  if (!(b == a)) orFail(res, "mdarray", "copy compares unequal");
+  w.copyEq = (b == a);
   if (!tuples.empty()) {
     accessAt(b, "call", toArr<I, R>(tuples.front())) = -5;
-    if (std::vector<int>(a.container().begin(), a.container().end()) != after) orFail(res, "mdarray", "writing to a copy changed the original");
-    if (b == a) orFail(res, "mdarray", "modified copy still compares equal");
+    w.copyIndep = VL(a.container().begin(), a.container().end()) == w.after;
+    w.copyNe = !(b == a);
   }
-  if constexpr (R > 0)
-    for (std::size_t r = 0; r < R; ++r) {
-      ext.push_back(long(a.extent(r)));
-      if (long(a.stride(r)) != long(m.stride(r))) orFail(res, "mdarray", "stride()");
+  for (std::size_t r = 0; r < R; ++r) {
+    w.ext.push_back(long(a.extent(r)));
+    if constexpr (R > 0) { w.stride.push_back(long(a.stride(r))); w.mstride.push_back(long(m.stride(r))); }
+  }
+  w.size = long(a.size());
+  w.empty = a.empty();
+  return w;
+}
+
+static Result arrJudge(const Ctx& c, const ArrRaw& w, const std::vector<VL>& tuples, long want, const VL& expectInit, Result res) {
+  auto exp = expectedOffsets(c.lay, c.ext, c.str);
+  std::size_t n = tuples.size();
+  if (w.csize != want) orFail(res, "mdarray", "container_size " + std::to_string(w.csize) + " but required span is " + std::to_string(want));
+  if (w.init != expectInit) orFail(res, "mdarray", "initial contents");
+  VL shadow(w.init);
+  for (std::size_t i = 0; i < n; ++i) {
+    long e = exp[tuples[i]];
+    if (e < w.csize && e < (long)expectInit.size() && w.getC[i] != expectInit[e]) orFail(res, "mdarray", "element after construction at " + listStr(tuples[i]));
+    if (w.refOff[i] != e) orFail(res, "mdarray", "reference is not the designated element at " + listStr(tuples[i]));
+    if (e >= 0 && e < (long)shadow.size()) shadow[e] = 100 + long(i);
+    if (w.vwOff[i] != e || w.cvwOff[i] != e || w.vw2Off[i] != e) orFail(res, "mdarray", "to_mdspan view refers to a different element at " + listStr(tuples[i]));
+    if (w.cv2Off[i] != e) orFail(res, "mdarray", "const conversion to mdspan refers to a different element at " + listStr(tuples[i]));
+  }
+  if (w.after != shadow) orFail(res, "mdarray", "writes did not hit exactly the designated elements");
+  if (!w.cv2ExtEq) orFail(res, "mdarray", "const conversion to mdspan changes the extents");
+  if (w.extracted != w.after) orFail(res, "mdarray", "extract_container() does not return the elements");
+  if (w.otherEq) orFail(res, "mdarray", "operator== true although the extents differ");
+  for (int k = 0; k < 2; ++k) {
+    const FlipRaw& f = w.flip[k];
+    if (!f.applicable) continue;
+    stat("mdarray_flip_checked");
+    if (f.ext != c.ext || f.ext2 != c.ext) orFail(res, "mdarray", "array converted to flipped extents reports extents " + listStr(f.ext) + " / " + listStr(f.ext2));
+    if (f.backExt != c.ext) orFail(res, "mdarray", "extents converted back differ");
+    if (f.cont != w.after) orFail(res, "mdarray", "array converted to flipped extents has other elements");
+    for (std::size_t i = 0; i < f.offs.size(); ++i) {
+      long e = exp[tuples[i]];
+      if (f.offs[i] != e || (e < (long)w.after.size() && (f.vals[i] != w.after[e] || f.vals2[i] != w.after[e]))) {
+        orFail(res, "mdarray", "array converted to flipped extents holds a different element at " + listStr(tuples[i]));
+        break;
+      }
     }
-  if (ext != c.ext) orFail(res, "mdarray", "extents");
-  if (long(a.size()) != want || a.empty() != (want == 0)) orFail(res, "mdarray", "size()/empty()");
-  res.impl = "csize=" + std::to_string(csize) + " size=" + std::to_string(long(a.size())) + " ext=" + listStr(ext) +
-             " init=" + listStr(init) + " cont=" + listStr(after) + " view=" + listStr(view);
+  }
+  if (!w.copyEq) orFail(res, "mdarray", "copy compares unequal");
+  if (!w.copyIndep) orFail(res, "mdarray", "writing to a copy changed the original");
+  if (!w.copyNe) orFail(res, "mdarray", "modified copy still compares equal");
+  if (w.stride != w.mstride) orFail(res, "mdarray", "stride()");
+  if (w.ext != c.ext) orFail(res, "mdarray", "extents");
+  if (w.size != want || w.empty != (want == 0)) orFail(res, "mdarray", "size()/empty()");
+  res.impl = "csize=" + std::to_string(w.csize) + " size=" + std::to_string(w.size) + " ext=" + listStr(w.ext) +
+             " init=" + listStr(w.init) + " cont=" + listStr(w.after) + " view=" + listStr(w.view);
   return res;
 }
 
@@ -898,11 +1042,11 @@ template <class E, class L> Result doMdarray(const Ctx& c) {
         if (k == "arrext") a2.emplace(e);
         else if (k == "arrval") { a2.emplace(e, 7); expectInit.assign(want, 7); }
         else { std::array<int, N> ca{}; for (std::size_t q = 0; q < N; ++q) ca[q] = int(10 + q); a2.emplace(e, ca); expectInit = cont; }
-        return mdarrayBody<E, L>(*a2, m, c, tuples, exp, want, expectInit, res);
+        return arrJudge(c, arrRaw<E, L>(*a2, m, c, tuples), tuples, want, VL(expectInit.begin(), expectInit.end()), res);
       } else throw BadOp{};
     }
     else throw BadOp{};
-    return mdarrayBody<E, L>(*aO, m, c, tuples, exp, want, expectInit, res);
+    return arrJudge(c, arrRaw<E, L>(*aO, m, c, tuples), tuples, want, VL(expectInit.begin(), expectInit.end()), res);
   }
 }
 
@@ -1307,6 +1451,11 @@ static Result exec(const std::string& line) {
     r.impl = "bad-op";
     r.oracle = "ok trivial";
     stat("bad_op");
+    return r;
+  } catch (std::runtime_error& ex) {  // a construction self-check of the harness failed
+    Result r;
+    r.impl = "failed";
+    r.oracle = std::string("FAIL ") + ex.what();
     return r;
   }
 }
